@@ -143,9 +143,17 @@ func (m *machine) setSystem(rt *rapid.T) {
 		}
 	}
 	form := forms[rapid.IntRange(0, len(forms)-1).Draw(rt, "form")]
-	cs := candidates(rt, v)
-	// DEFAULT, and copying the other scope's value
 	global := form.scope != "session"
+	cs := m.allCandidates(si, v, global, rapid.Uint64().Draw(rt, "offset"))
+	c := pickCand(rt, cs, "value")
+	m.applySet(rt, si, v, form, c, varCase(rt, v.name))
+}
+
+// allCandidates is the value pool of v for a SET in the given scope issued by session si:
+// the type-derived pool plus DEFAULT and a copy of the other scope's value, minus the regions
+// of listed findings.
+func (m *machine) allCandidates(si int, v *varInfo, global bool, off uint64) []cand {
+	cs := candidates(v, off)
 	if global {
 		cs = append(cs, cand{"DEFAULT", "default", +1, []string{m.initial[v.name]}})
 		if v.hasSession() && v.hasGlobal() {
@@ -171,7 +179,12 @@ func (m *machine) setSystem(rt *rapid.T) {
 		}
 		cs = kept
 	}
-	c := pickCand(rt, cs, "value")
+	return cs
+}
+
+// applySet issues one SET of a system variable and decides it.
+func (m *machine) applySet(rt *rapid.T, si int, v *varInfo, form setForm, c cand, spelled string) {
+	global := form.scope != "session"
 	must, why := c.must, ""
 	switch {
 	case v.readOnly:
@@ -183,7 +196,7 @@ func (m *machine) setSystem(rt *rapid.T) {
 	case form.scope == "persist" && must > 0:
 		must = 0 // PERSIST is optional (unsupported for DEFAULT); if accepted it must act like GLOBAL
 	}
-	q := fmt.Sprintf(form.tmpl, varCase(rt, v.name), c.sql)
+	q := fmt.Sprintf(form.tmpl, spelled, c.sql)
 	r := m.sess[si].Exec(q)
 	m.log(si, q)
 	m.st.Class("sys:kind:" + v.kind)
@@ -348,7 +361,7 @@ func (m *machine) setBoth(rt *rapid.T) {
 	}
 	v := settable[rapid.IntRange(0, len(settable)-1).Draw(rt, "var")]
 	var valid []cand
-	for _, c := range candidates(rt, v) {
+	for _, c := range candidates(v, rapid.Uint64().Draw(rt, "offset")) {
 		if c.must > 0 {
 			valid = append(valid, c)
 		}
@@ -516,48 +529,66 @@ func pickVars(rt *rapid.T, pool map[string][]*varInfo) []*varInfo {
 	return out
 }
 
-func TestC44(t *testing.T) {
-	st := stats.New("C44", "")
-	defer st.Flush()
+// buildPool groups the registry's variables by kind.
+func buildPool(t *testing.T) (map[string][]*varInfo, []*varInfo) {
 	variables.InitSystemVariables()
 	pool := map[string][]*varInfo{}
+	var all []*varInfo
 	for _, v := range loadVars() {
 		if v.scope != sql.SystemVariableScope_Global && v.scope != sql.SystemVariableScope_Session && v.scope != sql.SystemVariableScope_Both {
 			continue
 		}
 		pool[v.kind] = append(pool[v.kind], v)
+		all = append(all, v)
 	}
 	for _, k := range kinds {
 		if len(pool[k]) == 0 {
 			t.Fatalf("no system variable of kind %s in the registry", k)
 		}
 	}
+	return pool, all
+}
+
+// start builds a fresh engine over a freshly reset registry and reads the initial values of vars.
+func start(rt *rapid.T, st *stats.Collector, vars []*varInfo, nsess int) *machine {
+	// sql.SystemVariables is process-global: every case starts from the declared defaults
+	variables.InitSystemVariables()
+	m := &machine{st: st, glob: map[string]string{}, initial: map[string]string{}, vars: vars}
+	m.f = fx.New(fx.Opts{})
+	// initial values as the engine reports them (declared defaults; not asserted)
+	s0 := m.f.NewSession("root", "localhost", "")
+	for _, v := range m.vars {
+		q := "SELECT @@global." + v.name
+		if !v.hasGlobal() {
+			q = "SELECT @@session." + v.name
+		}
+		r := s0.Exec(q)
+		if !r.OK() || len(r.Rows) != 1 {
+			rt.Fatalf("%s failed: %s", q, r)
+		}
+		m.glob[v.name] = fx.Norm(r.Rows[0][0], nil)
+		m.initial[v.name] = m.glob[v.name]
+	}
+	for i := 0; i < nsess; i++ {
+		m.newSession(rt)
+	}
+	return m
+}
+
+func (m *machine) close() {
+	m.f.Close()
+	variables.InitSystemVariables()
+}
+
+func TestC44(t *testing.T) {
+	st := stats.New("C44", "")
+	defer st.Flush()
+	pool, _ := buildPool(t)
 	rapid.Check(t, func(rt *rapid.T) {
 		st.Eval()
-		// sql.SystemVariables is process-global: every case starts from the declared defaults
-		variables.InitSystemVariables()
-		m := &machine{st: st, glob: map[string]string{}, initial: map[string]string{}}
-		m.f = fx.New(fx.Opts{})
-		defer m.f.Close()
-		defer variables.InitSystemVariables()
-		m.vars = pickVars(rt, pool)
-		// initial values as the engine reports them (declared defaults; not asserted)
-		s0 := m.f.NewSession("root", "localhost", "")
-		for _, v := range m.vars {
-			q := "SELECT @@global." + v.name
-			if !v.hasGlobal() {
-				q = "SELECT @@session." + v.name
-			}
-			r := s0.Exec(q)
-			if !r.OK() || len(r.Rows) != 1 {
-				rt.Fatalf("%s failed: %s", q, r)
-			}
-			m.glob[v.name] = fx.Norm(r.Rows[0][0], nil)
-			m.initial[v.name] = m.glob[v.name]
-		}
-		for i, n := 0, rapid.IntRange(2, 3).Draw(rt, "nsessions"); i < n; i++ {
-			m.newSession(rt)
-		}
+		vars := pickVars(rt, pool)
+		m := start(rt, st, vars, rapid.IntRange(2, 3).Draw(rt, "nsessions"))
+		defer m.close()
 		m.verify(rt)
 		rt.Repeat(map[string]func(*rapid.T){
 			"setSystem":  m.setSystem,
